@@ -28,7 +28,7 @@ template<class T> static void unary(T x) { std::string ty = tn<T>();
 template<class T> static void fields(Rng& g, int n) { std::string ty = tn<T>(); int w = sizeof(T) * 8;
 	for (int i = 0; i < n; ++i) { T x = special<T>(g, i), y = special<T>(g, i + 5); int off = (int)(g.next() % w); int bits = (int)(g.next() % (w - off + 1)); if (i % 7 == 0) bits = 0; if (i % 11 == 0) { off = 0; bits = w; }
 		T e = ref_extract(x, off, bits); T r = glm::bitfieldExtract(x, off, bits); T rv = glm::bitfieldExtract(glm::vec<2, T>(y, x), off, bits).y; count("bitfieldExtract");
-		if (r != e || rv != e) { std::string cls = (sizeof(T) == 8 && bits >= 32) ? "64-bit element, 32 <= bits" : (std::is_signed<T>::value && e < 0) ? "signed, field top bit set" : (bits == (int)sizeof(T) * 8 ? "full width" : "value"); fail("bitfieldExtract", cls, ty + " " + ps(x) + " off=" + str(off) + " bits=" + str(bits), ps(e), ps(r)); }
+		if (r != e || rv != e) { std::string cls = (std::is_signed<T>::value && e < 0) ? "signed, field top bit set" : (sizeof(T) == 8 && bits >= 32) ? "64-bit element, 32 <= bits" : (bits == (int)sizeof(T) * 8 ? "full width" : "value"); fail("bitfieldExtract", cls, ty + " " + ps(x) + " off=" + str(off) + " bits=" + str(bits), ps(e), ps(r)); }
 		if (sizeof(T) >= 4 || true) { T ei = ref_insert(x, y, off, bits); T ri = glm::bitfieldInsert(x, y, off, bits); T riv = glm::bitfieldInsert(glm::vec<3, T>((T)1, x, (T)2), glm::vec<3, T>((T)3, y, (T)4), off, bits).y; count("bitfieldInsert");
 			if (ri != ei || riv != ei) fail("bitfieldInsert", (sizeof(T) == 8 && off + bits > 31) ? "64-bit element, field beyond bit 31" : "value", ty + " base=" + ps(x) + " insert=" + ps(y) + " off=" + str(off) + " bits=" + str(bits), ps(ei), ps(ri)); } } }
 template<class T> static void run_type(Rng& g, int n, bool exhaustive) { int w = sizeof(T) * 8; if (exhaustive) for (long long i = 0; i < (1ll << w); ++i) unary<T>((T)(typename std::make_unsigned<T>::type)i); else for (int i = 0; i < n; ++i) unary<T>(special<T>(g, i)); fields<T>(g, n); }
